@@ -178,6 +178,11 @@ impl Scenario for C01 {
         Case { text, source: source.to_string(), faults, flip, plan, followup, on_disk }
     }
 
+    fn extra_time(c: &Case) -> std::time::Duration {
+        // about a second per MiB and entry point on an idle machine; allow a loaded one forty times that
+        std::time::Duration::from_secs(40 * (c.text.len() as u64 >> 20))
+    }
+
     fn execute(c: &Case, obs: &mut Obs) -> Result<(), Violation> {
         if c.source == "wellformed-huge" {
             // size thresholds only: whole document in, whole document out, no error
